@@ -147,7 +147,7 @@ Fixpoint aenv_join (E F : aenv) : aenv :=
    its instances may hold references to (by field), the parameters whose
    pre-existing buffer its instances may share (views), and [po]: the abstract objects
    that a write of the analysed function may have stored INTO an object that existed
-   before the call (only non-empty for functions that do modify their arguments; it
+   before the call, by field (only non-empty for functions that do modify their arguments; it
    keeps the attribution of later writes to parameters sound: after a.append(b),
    a[0].shape = .. modifies b) *)
 Definition fmap := list (field * aset_t).
@@ -171,7 +171,7 @@ Definition hp_look (h : list (site * fmap)) (s : site) (f : field) : aset_t := f
 Record aheap := mkheap {
   hp : list (site * fmap);
   bt : list (site * list var);
-  po : aset_t }.
+  po : fmap }.
 Fixpoint bt_look (h : list (site * list var)) (s : site) : list var :=
   match h with
   | [] => []
@@ -182,7 +182,7 @@ Fixpoint bt_look (h : list (site * list var)) (s : site) : list var :=
    function itself has stored into pre-existing objects *)
 Definition hpts (H : aheap) (f : field) (a : aobj) : aset_t :=
   match a with
-  | xI _ => aunion (asingle a) (po H)
+  | xI _ => aunion (asingle a) (fm_match (po H) f)
   | xO p => hp_match (hp H) (Pos.pred_N p) f
   | xH => aempty
   end.
@@ -254,7 +254,7 @@ Fixpoint eval_expr (H : aheap) (E : aenv) (e : expr) : option aset_t :=
 Definition store_ok (H : aheap) (f : field) (targets vals : aset_t) : bool :=
   forallb (fun a => match a with
                      | xO p => asubset vals (hp_look (hp H) (Pos.pred_N p) f)
-                     | xI _ => asubset vals (po H)
+                     | xI _ => asubset vals (fm_look (po H) f)
                      | xH => true
                      end)
           (aelems targets).
@@ -364,7 +364,7 @@ Definition infer_store (H : aheap) (f : field) (targets vals : aset_t) : aheap :
   if aisempty vals then H else
   fold_left (fun H a => match a with
                         | xO p => mkheap (hp_add (hp H) (Pos.pred_N p) f vals) (bt H) (po H)
-                        | xI _ => mkheap (hp H) (bt H) (aunion vals (po H))
+                        | xI _ => mkheap (hp H) (bt H) (fm_add (po H) f vals)
                         | xH => H
                         end)
             (aelems targets) H.
@@ -407,7 +407,7 @@ Fixpoint infer (p : program) (depth : nat) : stmt -> aheap -> aenv -> aheap * ae
 Definition heap_size (H : aheap) : nat :=
   (hp_size (hp H)
    + fold_right (fun sv n => List.length (snd sv) + n) 0 (bt H) + List.length (bt H)
-   + PositiveSet.cardinal (po H))%nat.
+   + fm_size (po H))%nat.
 
 Fixpoint infer_fix (p : program) (depth : nat) (body : stmt) (E0 : aenv) (k : nat) (H : aheap) : aheap :=
   match k with
@@ -425,7 +425,7 @@ Definition entry_env (fd : fundef) : aenv :=
 
 Definition analyse (p : program) (fd : fundef) : option viol :=
   let E0 := entry_env fd in
-  let H := infer_fix p DEPTH (fn_body fd) E0 HEAPFUEL (mkheap [] [] aempty) in
+  let H := infer_fix p DEPTH (fn_body fd) E0 HEAPFUEL (mkheap [] [] []) in
   match chk p H DEPTH (fn_body fd) E0 with
   | Some (_, v) => Some v
   | None => None
